@@ -21,6 +21,17 @@ pub mod wb;
 
 use crate::evidence::Ctx;
 
+/// Thorough tier only: the valgrind memcheck leg (evidence.rs::memcheck_leg) over the first `runs` runs of each
+/// phase; what it observed goes into the evidence file under `memcheck_leg`.
+fn memcheck(ctx: &Ctx, agg: &mut crate::evidence::Agg, rep: &mut Report, runs: u64) {
+    if ctx.tier.name() != "thorough" && std::env::var("VERIF_LEG").is_err() {
+        return;
+    }
+    let (obs, viols) = crate::evidence::memcheck_leg(ctx, runs);
+    agg.viols.extend(viols);
+    rep.extra.insert("memcheck_leg".into(), obs);
+}
+
 pub fn dispatch(ctx: &Ctx) -> Option<i32> {
     Some(match ctx.id {
         "C01" => c01_check(ctx),
@@ -73,6 +84,8 @@ fn c01_check(ctx: &Ctx) -> i32 {
         min_nontrivial: ctx.tier.pick(200, 2000),
         extra: BTreeMap::new(),
     };
+    let (mut agg, mut rep) = (agg, rep);
+    memcheck(ctx, &mut agg, &mut rep, 300);
     finish(ctx, agg, rep)
 }
 
@@ -205,6 +218,8 @@ fn c07_check(ctx: &Ctx) -> i32 {
         min_nontrivial: ctx.tier.pick(300, 3000),
         extra: BTreeMap::new(),
     };
+    let (mut agg, mut rep) = (agg, rep);
+    memcheck(ctx, &mut agg, &mut rep, 300);
     finish(ctx, agg, rep)
 }
 
@@ -301,6 +316,8 @@ fn c08_check(ctx: &Ctx) -> i32 {
         min_nontrivial: ctx.tier.pick(300, 3000),
         extra: BTreeMap::new(),
     };
+    let (mut agg, mut rep) = (agg, rep);
+    memcheck(ctx, &mut agg, &mut rep, 400);
     finish(ctx, agg, rep)
 }
 
@@ -321,6 +338,8 @@ fn c04_check(ctx: &Ctx) -> i32 {
     for (phase, run, seed) in agg.stuck.clone() {
         agg.viols.push((phase, run, seed, crate::evidence::Viol { signature: "C04:stuck-helper-thread".into(), detail: "run did not reach quiescence: all threads of the shard blocked, progress counter frozen (OS-level quiescence)".into(), replay: serde_json::json!({"run": run, "seed": seed}) }));
     }
+    let (mut agg, mut rep) = (agg, rep);
+    memcheck(ctx, &mut agg, &mut rep, 300);
     finish(ctx, agg, rep)
 }
 
@@ -430,6 +449,8 @@ fn c05_check(ctx: &Ctx) -> i32 {
         min_nontrivial: ctx.tier.pick(300, 3000),
         extra: BTreeMap::new(),
     };
+    let (mut agg, mut rep) = (agg, rep);
+    memcheck(ctx, &mut agg, &mut rep, 200);
     finish(ctx, agg, rep)
 }
 
@@ -460,6 +481,8 @@ fn c18_check(ctx: &Ctx) -> i32 {
         min_nontrivial: ctx.tier.pick(300, 3000),
         extra: BTreeMap::new(),
     };
+    let (mut agg, mut rep) = (agg, rep);
+    memcheck(ctx, &mut agg, &mut rep, 400);
     finish(ctx, agg, rep)
 }
 
@@ -475,6 +498,8 @@ fn c20_check(ctx: &Ctx) -> i32 {
         min_nontrivial: ctx.tier.pick(300, 3000),
         extra: BTreeMap::new(),
     };
+    let (mut agg, mut rep) = (agg, rep);
+    memcheck(ctx, &mut agg, &mut rep, 400);
     finish(ctx, agg, rep)
 }
 
